@@ -646,12 +646,23 @@ where
                     let hash_fn: &HashFn<'static> = unsafe { std::mem::transmute(hash_fn) };
                     thread_pool.spawn_fifo(move || {
                         let _open_files_guard = RLIMIT_OPEN_FILES.clone().access_owned();
-                        let old_hash = fg[0].file_hash.clone();
-                        if let Some(hash) = hash_fn((&mut fg[0].file_info, old_hash)) {
+                        // All paths sharing the same file id lead to the same data, so it is
+                        // enough to hash one of them. A path that cannot be read (e.g. it has
+                        // just been removed or cannot be opened) is left out and the next path
+                        // of the same file is tried, so it does not take the others along.
+                        let mut hashed = None;
+                        for (i, f) in fg.iter_mut().enumerate() {
+                            let old_hash = f.file_hash.clone();
+                            if let Some(hash) = hash_fn((&mut f.file_info, old_hash)) {
+                                hashed = Some((i, hash));
+                                break;
+                            }
+                        }
+                        if let Some((first_ok, hash)) = hashed {
                             // hash_fn may update the length (transformed files); all paths
                             // sharing the same file id share that length
-                            let len = fg[0].file_info.len;
-                            for mut f in fg {
+                            let len = fg[first_ok].file_info.len;
+                            for mut f in fg.into_iter().skip(first_ok) {
                                 f.file_info.len = len;
                                 f.file_hash = hash.clone();
                                 tx.send(f).unwrap();
